@@ -203,7 +203,11 @@ pub fn run(line: &str) -> Option<(String, Vec<String>)> {
         let slen = info.data_len();
         let is_mip = info.is_mipmap();
         let before = sink.0.borrow().len();
-        let (buf, pitch) = make_image(size, color, pitch_extra, calls * 7919 + w as u64);
+        let (mut buf, pitch) = make_image(size, color, pitch_extra, calls * 7919 + w as u64);
+        // a view over a larger backing slice (reused scratch buffer): the bytes written must not depend on it
+        if (w as u64 + 2 * h as u64 + calls) % 3 == 0 {
+            buf.extend((0..(257 + 13 * calls as usize)).map(|i| i as u8));
+        }
         let view = ImageView::new_with(&buf, pitch, size, color)?;
         let r = enc.write_surface(view);
         calls += 1;
@@ -260,7 +264,10 @@ pub fn run(line: &str) -> Option<(String, Vec<String>)> {
     // a single surface through the free function writes exactly its encoded length
     let main = layout.main_size();
     let mut single = Vec::new();
-    let (buf, pitch) = make_image(main, color, pitch_extra, 42);
+    let (mut buf, pitch) = make_image(main, color, pitch_extra, 42);
+    if (w + h) % 2 == 1 {
+        buf.extend((0..301).map(|i| i as u8));
+    }
     let view = ImageView::new_with(&buf, pitch, main, color)?;
     let mut opts = EncodeOptions::default();
     opts.quality = CompressionQuality::Fast;
